@@ -121,7 +121,7 @@ def _gen_op(r, kinds):
         return {"op": k, "f": r.randrange(100), "identity": r.chance(0.4), "fill": r.randrange(10 ** 6),
                 "via": r.pick(["method", "item"])}
     if k == "add_fields":
-        return {"op": k, "n": r.pick([1, 1, 2]), "as_str": r.chance(0.3), "tag": r.randrange(1000)}
+        return {"op": k, "n": r.pick([1, 1, 2, 3]), "as_str": r.chance(0.3), "tag": r.randrange(1000)}
     if k == "remove_fields":
         return {"op": k, "ff": [r.randrange(100) for _ in range(r.pick([1, 1, 2]))],
                 "missing": r.chance(0.15), "as_str": r.chance(0.3)}
@@ -639,6 +639,24 @@ def run(plan):
                 vecs["c"] = (c, m.copy())
                 vecs["c"][1].meta = dict(c.metadata) if not dict(c.metadata) else dict(m.meta)
                 check_all("copy")
+                # copies share no mutable state: no common list / dict / array objects
+                shared = []
+                if c.fields is v.fields:
+                    shared.append("fields")
+                if c.units is v.units:
+                    shared.append("units")
+                if c.metadata is v.metadata:
+                    shared.append("metadata")
+                if c.data is v.data:
+                    shared.append("data")
+                for idx_ in m.order():
+                    a_, b_ = read_cell(c, idx_), read_cell(v, idx_)
+                    if a_ is not None and b_ is not None and (a_ is b_ or np.shares_memory(a_, b_)):
+                        shared.append(f"cell{idx_}")
+                        break
+                if shared:
+                    viol("copy_shares_state", f"copy() shares {shared} with its source",
+                         "copy_shares_state:" + shared[0].split("(")[0])
                 if k == "continue_on_copy":
                     # the copy becomes the working vector, the original stays live as 'w'
                     vecs["w"] = vecs["v"]
@@ -694,7 +712,24 @@ def run(plan):
                 try:
                     if what == "wrong_columns":
                         exp = ValueError
-                        v[idx if nd > 1 else idx[0]] = np.zeros((2, m.nf + 1))
+                        bad_a = np.zeros((2, m.nf + 1 + op["idx"][1] % 2)) if op["idx"][2] % 4 else \
+                            np.zeros((2, max(0, m.nf - 1)))
+                        pathsel = op["idx"][0] % 4
+                        if pathsel == 0:
+                            v[idx if nd > 1 else idx[0]] = bad_a
+                        elif pathsel == 1:
+                            v.set_data(bad_a, *idx)
+                        elif pathsel == 2:
+                            # single cell addressed through a slice: list form
+                            sl = tuple(slice(i, i + 1) for i in idx)
+                            v[sl if nd > 1 else sl[0]] = [bad_a]
+                        else:
+                            # from another Vector with a different field count
+                            nf2 = m.nf + 1
+                            sv = V.from_shape((1,), num_fields=nf2)
+                            sv[0] = np.zeros((1, nf2))
+                            sl = tuple(slice(i, i + 1) for i in idx)
+                            v[sl if nd > 1 else sl[0]] = sv
                     elif what == "wrong_columns_slice":
                         exp = ValueError
                         objs, lists = _resolve_index(op["index"], m.shape, 0)
